@@ -1,2 +1,83 @@
-from ._meta import M
-META = M["C12"]
+"""C12: order-table agreement lemma - the REAL reader and writer loops executed
+on the REAL table with a symbolic mnemonic."""
+import ast
+import z3
+from pyvc.values import *
+from pyvc.state import State, OutOfSubset, Goal
+from pyvc import calls as C
+from pyvc import lemma as L
+from ._meta import M, COMMON_NOTE
+
+META = dict(M["C12"])
+META.update(
+    level="other",
+    technique="symbolic execution of the real get_section_order_function (writer) and SectionParser.__init__ + the order lookup of SectionParser.metadata (reader) on the real ORDER_DEFINITIONS table with a symbolic mnemonic; equality of the two results discharged by z3; configuration pairs as bounded stand-in",
+    level_text="Proved for EVERY mnemonic string m, versions 1.2 and 2.0, sections Version/Well/Curves/Parameter and case maps {identity, upper, lower}: the value/description order the writer uses for m equals the order the reader uses for casemap(m) "
+               "(both sides are the repository's own loops, re-read and executed on the repository's own table on every run). Everything else (data part, widths, wrap) is bounded: read(write(x,cfg1)) vs read(write(x,cfg2)) over single-option pairs.",
+    level_note=COMMON_NOTE + "T-str: upper(upper(m)) = upper(m), upper(lower(m)) = upper(m) (validated natively).",
+    validate=["T-str"], trusted=["T-str"])
+
+TITLES = {"Version": "~Version", "Well": "~Well", "Curves": "~Curve", "Parameter": "~Parameter"}
+
+
+def _reader_order(E, st, section, version, name_term):
+    """SectionParser(title, version).orders.get(name.upper(), default_order) - by
+    running the real __init__ and the real right-hand side of `key_order = ...`"""
+    E.cur_module = "reader"
+    st.env = {"self": VPy("SectionParser")}
+    init = E.funcs["reader.SectionParser.__init__"]
+    out = []
+    rs = C.inline_call(E, init, {}, [st.env["self"], VStr(TITLES[section])], {"version": VConst(version)}, st, out, init, "reader.SectionParser.__init__", module="reader")
+    if len(rs) != 1 or out:
+        raise OutOfSubset("SectionParser.__init__ forks on concrete arguments (%d paths, %d exceptional)" % (len(rs), len(out)))
+    st = rs[0][0]
+    self_ = st.env["self"]
+    meta = E.funcs["reader.SectionParser.metadata"]
+    rhs = None
+    for n in ast.walk(meta):
+        if isinstance(n, ast.Assign) and any(isinstance(t, ast.Name) and t.id == "key_order" for t in n.targets):
+            rhs = n.value
+    if rhs is None:
+        raise OutOfSubset("no `key_order = ...` in SectionParser.metadata")
+    st.env = {"self": self_, "keys": VDict({"name": VStr(name_term)})}
+    rs = E.ev(rhs, st, out)
+    if len(rs) != 1 or out:
+        raise OutOfSubset("order lookup forks")
+    return rs[0][0], rs[0][1]
+
+
+def _writer_order(E, st, section, version, name_term):
+    E.cur_module = "writer"
+    f = E.funcs["writer.get_section_order_function"]
+    out = []
+    rs = C.inline_call(E, f, {}, [VStr(section), VConst(version)], {}, st, out, f, "writer.get_section_order_function", module="writer")
+    if len(rs) != 1 or out:
+        raise OutOfSubset("get_section_order_function forks")
+    st, fn = rs[0]
+    rs = C.call_value(E, fn, [VStr(name_term)], {}, st, out, f)
+    if len(rs) != 1 or out:
+        raise OutOfSubset("writer order lookup forks")
+    return rs[0]
+
+
+def lemmas(E, REG):
+    class _Cur:
+        key = "lemma:C12"; hooks = {}; local_types = {}; loops = {}; loop_anchor = {}; modifies = {}
+        abstract_exprs = False; anyraise = False; reveal = ()
+    E.cur = _Cur()
+    E.cur_loops = []
+    goals = []
+    m = z3.String("m")
+    for version in (1.2, 2.0):
+        for section in ("Version", "Well", "Curves", "Parameter"):
+            for cname, cm in (("preserve", lambda t: t), ("upper", lambda t: upper(t)), ("lower", lambda t: lower(t))):
+                st = State()
+                st.assume(upper(upper(m)) == upper(m))
+                st.assume(upper(lower(m)) == upper(m))
+                st, r = _reader_order(E, st, section, version, cm(m))
+                st, w = _writer_order(E, st, section, version, m)
+                if not (isinstance(r, VStr) and isinstance(w, VStr)):
+                    raise OutOfSubset("order is not a string")
+                goals.append(Goal("lemma:C12:reader-order(%s(m))=writer-order(m);v=%s;section=%s" % (cname, version, section),
+                                  list(st.pc), r.t == w.t, "lemma", "lemma:C12"))
+    return goals
